@@ -58,6 +58,19 @@ func init() {
 			Eq(x.timeNsec(st, v), iModE(nsec, IntLit(1000000000))))))
 		return v
 	})
+	reg("(time.Time).Add", func(x *Exec, fr *Frame, st *State, callee *ssa.Function, args []Value, pos token.Pos) Value {
+		if x.m() != ModeInt {
+			unsupported("time.Time in mode bv")
+		}
+		rt := callee.Signature.Results().At(0).Type()
+		v := x.havocValue(st, rt, "time")
+		tot := iAdd(x.timeNsec(st, args[0]), args[1].X)
+		// t + d: seconds carry from the nanosecond sum (Go saturates only beyond the int64 second range)
+		x.vc.assume(Implies(st.Reach, And(
+			Eq(x.timeUnix(st, v), wrapFull(iAdd(x.timeUnix(st, args[0]), iDivE(tot, IntLit(1000000000))), IntTy{64, true})),
+			Eq(x.timeNsec(st, v), iModE(tot, IntLit(1000000000))))))
+		return v
+	})
 	cmp := func(name string, f func(x *Exec, st *State, a, b Value) *Term) {
 		reg("(time.Time)."+name, func(x *Exec, fr *Frame, st *State, callee *ssa.Function, args []Value, pos token.Pos) Value {
 			return Value{K: KScalar, X: f(x, st, args[0], args[1])}
